@@ -608,8 +608,7 @@ Fixpoint invalidate_node (fuel : nat) (n : nid) : M unit :=
     if negb (n_valid x) then ret tt else
     emit (EvInvalidate n) ;;;
     maybe_handle_after_stabilisation n ;;;
-    st <- gets stab_num ;;
-    upd_node n (fun x => x <| n_value := None |> <| n_changed_at := st |> <| n_recomputed_at := st |>) ;;;
+    stamp_node n (fun st x => x <| n_value := None |> <| n_changed_at := st |> <| n_recomputed_at := st |>) ;;;
     modify (fun s => s <| num_invalidated := num_invalidated s + 1 |>) ;;;
     (if is_necessary x then
        remove_children f n ;;;
@@ -709,7 +708,7 @@ Definition did_set_var_while_not_stabilising (x : vid) : M unit :=
     modify (fun s => s <| num_var_sets := num_var_sets s + 1 |>) ;;;
     st <- gets stab_num ;;
     if bool_decide (v_set_at v < st) then
-      upd_var x (fun v => v <| v_set_at := st |>) ;;;
+      stamp_var x (fun st v => v <| v_set_at := st |>) ;;;
       dassert (w <- get_node watch ;; s <- get ;; ret (is_stale s w)) 230 ;;;
       w <- get_node watch ;;
       if is_necessary w && negb (in_rch w) then rch_insert watch else ret tt
@@ -1390,8 +1389,7 @@ Definition parent_iter_can_recompute_now (parent child : nid) : M bool :=
 Definition maybe_change_value_manual (fuel : nat) (n : nid) (old : option val) (did_change run_cc : bool)
   : M (option nid) :=
   if negb did_change then ret None else
-  st <- gets stab_num ;;
-  upd_node n (fun x => x <| n_changed_at := st |>) ;;;
+  stamp_node n (fun st x => x <| n_changed_at := st |>) ;;;
   modify (fun s => s <| num_changed := num_changed s + 1 |>) ;;;
   maybe_handle_after_stabilisation n ;;;
   x <- get_node n ;;
@@ -1457,14 +1455,8 @@ Definition copy_child_bindrhs (fuel : nat) (n child : nid) : M (option nid) :=
   else
     invalidate_node fuel n ;;; propagate_invalidity fuel ;;; ret None.
 
-(* recompute_one (node.rs:604) *)
-Definition recompute_one (fuel : nat) (n : nid) : M (option nid) :=
-  emit (EvRecompute n) ;;;
-  (* debug builds also note the currently running node (only_in_debug, node.rs:617) *)
-  modify (fun s => s <| num_recomputed := num_recomputed s + 1 |>
-                     <| cur_running := if debug s then Some n else cur_running s |>) ;;;
-  st <- gets stab_num ;;
-  upd_node n (fun x => x <| n_recomputed_at := st |>) ;;;
+(* the rest of recompute_one, after the node has been stamped as recomputed *)
+Definition recompute_body (fuel : nat) (n : nid) : M (option nid) :=
   x <- get_node n ;;
   match node_kind x with
   | None => panic PRecomputeInvalid
@@ -1526,7 +1518,7 @@ Definition recompute_one (fuel : nat) (n : nid) : M (option nid) :=
       collect [ONode n; ONode rhs] ;;;
       upd_bind b (fun bd => bd <| b_rhs := Some rhs |>) ;;;
       let old_rhs := b_rhs bd in
-      upd_node n (fun x => x <| n_changed_at := st |>) ;;;
+      stamp_node n (fun st x => x <| n_changed_at := st |>) ;;;
       main <- get_node (b_main bd) ;;
       (if n_live main then change_child_bind_rhs fuel (b_main bd) old_rhs rhs 1 else ret tt) ;;;
       (match old_rhs with
@@ -1575,6 +1567,15 @@ Definition recompute_one (fuel : nat) (n : nid) : M (option nid) :=
         emit (EvExpertRun n (VInt total)) ;;;
         maybe_change_value fuel n (VInt total)
   end.
+
+(* recompute_one (node.rs:604) *)
+Definition recompute_one (fuel : nat) (n : nid) : M (option nid) :=
+  emit (EvRecompute n) ;;;
+  (* debug builds also note the currently running node (only_in_debug, node.rs:617) *)
+  modify (fun s => s <| num_recomputed := num_recomputed s + 1 |>
+                     <| cur_running := if debug s then Some n else cur_running s |>) ;;;
+  stamp_node n (fun st x => x <| n_recomputed_at := st |>) ;;;
+  recompute_body fuel n.
 
 (* recompute (node.rs:590): the flattened chain *)
 Fixpoint recompute (fuel : nat) (n : nid) : M unit :=
